@@ -120,3 +120,27 @@ func MapSeq[M ~map[K]V, K comparable, V any](m M) iter.Seq2[K, V] {
 		}
 	}
 }
+
+// MapKeys, MapValues and MapAll replace maps.Keys, maps.Values and maps.All
+// in woven code: same sequences, in the simulator's controlled order.
+func MapKeys[M ~map[K]V, K comparable, V any](m M) iter.Seq[K] {
+	return func(yield func(K) bool) {
+		for k := range MapSeq(m) {
+			if !yield(k) {
+				return
+			}
+		}
+	}
+}
+
+func MapValues[M ~map[K]V, K comparable, V any](m M) iter.Seq[V] {
+	return func(yield func(V) bool) {
+		for _, v := range MapSeq(m) {
+			if !yield(v) {
+				return
+			}
+		}
+	}
+}
+
+func MapAll[M ~map[K]V, K comparable, V any](m M) iter.Seq2[K, V] { return MapSeq(m) }
